@@ -42,6 +42,15 @@ pub struct C09Case {
     /// 5 `exp` gets the same value as nbf when both are in the future
     #[serde(default)]
     pub iat_mode: u8,
+    /// the credential comes from ANOTHER issuer implementation: the harness signs the claims as
+    /// given (nothing selectively disclosable; fractions and exponents in the instants survive as
+    /// written), the library's holder and verifier take it from there
+    #[serde(default)]
+    pub foreign_issuer: bool,
+    /// the key-binding JWT is replaced by one made by the harness (same key, nonce, aud, sd_hash)
+    /// whose own iat lies years in the past; only the must-reject direction is asserted then
+    #[serde(default)]
+    pub backdated_kb: bool,
 }
 
 pub const YEAR_2100: u64 = 4_102_444_800;
@@ -149,21 +158,59 @@ pub fn check(case: &C09Case, st: &mut Stats) -> Verdict {
     st.label(if case.kb.is_some() { "kb=on" } else { "kb=off" });
     st.label(if must_reject.is_empty() { "expect=accept" } else { "expect=reject" });
     st.nontrivial();
-    let sel = select(&tree, &case.selection);
-    let issued = match sut::issue(&spec) {
-        Out::Ok(s) => s,
-        _ => {
-            st.label("void:issue_failed");
-            return Ok(());
+    let foreign = case.foreign_issuer && spec.claims.get("cnf").is_none();
+    let (tree, selection) = if foreign {
+        st.label("issuer=foreign(harness-signed)");
+        spec.strat = crate::tree::Strat::NoSD;
+        (mark(&spec.claims, &spec.strat).map_err(|e| Failure::new("harness:bad-case", format!("{:?}", e)))?, Map::new())
+    } else {
+        (tree, case.selection.clone())
+    };
+    let sel = select(&tree, &selection);
+    let issued = if foreign {
+        let mut payload = spec.claims.clone();
+        if let Some(jwk) = spec.holder.jwk_value() {
+            payload["cnf"] = serde_json::json!({ "jwk": jwk });
+        }
+        let jwt = sut::sign_jwt(&serde_json::json!({"alg": spec.alg.name()}), &payload, spec.alg, crate::keys::KeyId::Primary);
+        match crate::codec::render(&crate::codec::Parts { jwt, disclosures: vec![], kb: None }, spec.fmt) {
+            Some(t) => t,
+            None => return Ok(()),
+        }
+    } else {
+        match sut::issue(&spec) {
+            Out::Ok(s) => s,
+            _ => {
+                st.label("void:issue_failed");
+                return Ok(());
+            }
         }
     };
-    let presentation = match sut::present(&issued, spec.fmt, &case.selection, case.kb.as_ref()) {
+    let mut presentation = match sut::present(&issued, spec.fmt, &selection, case.kb.as_ref()) {
         Out::Ok(p) => p,
         _ => {
             st.label("void:present_failed");
             return Ok(());
         }
     };
+    let mut one_direction_only = false;
+    if let (true, Some(k)) = (case.backdated_kb, case.kb.as_ref()) {
+        if let (Ok(parts), Some(enc), Some(kalg)) = (crate::codec::split(&presentation, spec.fmt), k.key.enc(), k.key.alg()) {
+            let mut sd = parts.jwt.clone();
+            for d in &parts.disclosures {
+                sd.push('~');
+                sd.push_str(d);
+            }
+            sd.push('~');
+            let p = serde_json::json!({"nonce": k.nonce, "aud": k.aud, "iat": now - 3 * 365 * 86400, "sd_hash": crate::codec::digest(&sd)});
+            let kb = sut::sign_with_key(&serde_json::json!({"alg": kalg.name(), "typ": "kb+jwt"}).to_string(), &p.to_string(), kalg, &enc);
+            if let Some(t) = crate::codec::render(&crate::codec::Parts { kb: Some(kb), ..parts }, spec.fmt) {
+                presentation = t;
+                one_direction_only = true;
+                st.label("kb=harness-made,iat_years_ago");
+            }
+        }
+    }
     let kb = case.kb.as_ref().map(|k| (k.aud.as_str(), k.nonce.as_str()));
     let out = sut::verify(&presentation, spec.fmt, spec.alg, kb);
     let show = || format!("exp={:?} nbf={:?} now={}\n  presentation: {}", spec.claims.get("exp"), spec.claims.get("nbf"), now, sut::clip(&presentation, 3000));
@@ -174,10 +221,11 @@ pub fn check(case: &C09Case, st: &mut Stats) -> Verdict {
             format!("temporal:accepted:{}", must_reject.join("+")),
             format!("a credential outside its validity window was accepted ({})\n  {}\n  returned claims: {}", must_reject.join("; "), show(), c),
         )),
+        (true, Out::Err(_)) if one_direction_only => Ok(()),
         (true, Out::Err(e)) => Err(Failure::new(err_sig("temporal:rejected", &e), format!("a credential inside its validity window was rejected: {}\n  {}", e, show()))),
         (true, Out::Ok(c)) => {
             let expected = expected_claims(&tree, &sel.paths, spec.holder);
-            if c != expected {
+            if crate::exact::differs(&c, &expected) {
                 return Err(Failure::new("mismatch:verified_claims", format!("verified claims differ\n  expected: {}\n  got: {}", expected, c)));
             }
             Ok(())
